@@ -1,21 +1,133 @@
 package main
 
 import (
+	"strings"
+
 	"verif/harness/core"
 	"verif/harness/g7lib"
 )
 
+// Known findings of C02 (see /verif/findings/C02.md). Each is kept from re-alarming either by a
+// domain exclusion of the generator (input predicate only; switched on here) or by a signature
+// matcher (input class AND observed failure mode), and its pinned witness is replayed on every run.
+
 // applyExclusions switches on the generator's domain exclusions for findings listed via=domain.
 func applyExclusions(qc *g7lib.QCfg) {
-	qc.NoHavingExprKey = true
-	qc.NoInSubNullItem = true
-	qc.NoCoalesceDecMix = true
+	qc.NoHavingExprKey = true   // having-scope-table-not-found
+	qc.NoHavingOtherTab = true  // having-scope-table-not-found
+	qc.NoHavingAliasSort = true // having-orderby-alias-false-error
+	qc.NoDistinctOrdinal = true // distinct-orderby-ordinal
+	qc.NoInSubNullItem = true   // in-subquery-null-literal-item
+	qc.NoCoalesceDecMix = true  // coalesce-decimal-args-forced-to-one-scale
+	qc.NoConstFalseOnSub = true // constant-false-on-with-subquery
+	qc.NoOuterOnlyInSub = true  // subquery-outer-only-conjunct-hoisted
+}
+
+func hasFeature(w *witness, f string) bool {
+	for _, x := range w.Features {
+		if x == f {
+			return true
+		}
+	}
+	return false
 }
 
 // classify gives a disagreement its signature: the failure mode plus the input class (join /
 // subquery / grouping / set-operator features). Known findings have dedicated matchers first.
-func classify(q *g7lib.Query, d *g7lib.Diff, w *witness) string {
+func classify(q *g7lib.Query, d *g7lib.Diff, w *witness, ev *g7lib.Evaluator) string {
+	// setop-offset-before-sort: a set operation with ORDER BY .. LIMIT n OFFSET m>0 whose engine
+	// result has the right length min(n, max(0, total-m)), is sorted on the keys and is a sub-multiset
+	// of the un-limited reference result, but is not the slice [m, m+n) (the engine skips m rows before
+	// it sorts).
+	if q.SetOp != "" && q.Limit >= 0 && q.Offset > 0 && d.Mode == "sequence" {
+		q0 := *q
+		q0.Offset, q0.Limit = -1, -1
+		if full, err := ev.Query(&q0); err == nil {
+			want := len(full) - q.Offset
+			if want < 0 {
+				want = 0
+			}
+			if want > q.Limit {
+				want = q.Limit
+			}
+			cnt := map[string]int{}
+			for _, k := range g7lib.RowKeys(full) {
+				cnt[k]++
+			}
+			ok := len(d.Extra) == want
+			for _, k := range d.Extra { // Extra = engine sequence in this mode
+				if cnt[k] == 0 {
+					ok = false
+				}
+				cnt[k]--
+			}
+			if ok && g7lib.SortedOnKeys(q, w.rawRows) {
+				return "setop-offset-before-sort"
+			}
+		}
+	}
 	return "mismatch:" + d.Mode + ":" + featureClass(w.Features)
 }
 
-func pinned(r *core.Run) {}
+// classifyError gives an engine error on a valid query of the fragment its signature.
+func classifyError(q *g7lib.Query, err error, w *witness) string {
+	msg := err.Error()
+	switch {
+	case strings.HasPrefix(msg, "table not found: x") && hasFeature(w, "having"):
+		// residual of the domain exclusion (e.g. inside a subquery block)
+		return "having-scope-table-not-found"
+	}
+	return "error:" + core.StripVolatile(msg)
+}
+
+// ---- pinned witnesses ----
+
+var pinSetup = []string{
+	"CREATE TABLE t (id INT NOT NULL, a INT, b INT, d DECIMAL(8,2), s VARCHAR(8) COLLATE utf8mb4_0900_bin, PRIMARY KEY (id))",
+	"CREATE TABLE u (id INT NOT NULL, a INT, b INT, d DECIMAL(8,2), s VARCHAR(8) COLLATE utf8mb4_0900_bin, PRIMARY KEY (id), KEY ka (a))",
+	"INSERT INTO t VALUES (1,1,1,1.50,'a')", "INSERT INTO t VALUES (2,NULL,2,NULL,'A')", "INSERT INTO t VALUES (3,2,2,2.25,NULL)",
+	"INSERT INTO t VALUES (4,10,3,10.00,'a ')", "INSERT INTO t VALUES (5,5,3,0.05,'b')",
+	"INSERT INTO u VALUES (1,1,1,1.50,'a')", "INSERT INTO u VALUES (2,NULL,2,NULL,'B')", "INSERT INTO u VALUES (3,3,2,2.25,NULL)",
+}
+
+type pin struct {
+	sig, what string
+	w         witness
+}
+
+func pins() []pin {
+	mk := func(sig, what, sql string, seq bool, expected ...string) pin {
+		return pin{sig, what, witness{Case: "pinned:" + sig, Setup: pinSetup, SQL: sql, Expected: expected, Sequence: seq}}
+	}
+	return []pin{
+		mk("having-scope-table-not-found", "HAVING over an aggregate of a table other than the first of the FROM list (or over a GROUP BY key that is an expression) fails with 'table not found'",
+			"SELECT MAX(x.s) AS c0 FROM t x INNER JOIN u y ON (x.a = y.a) GROUP BY x.s HAVING (MAX(y.a) IS NOT NULL)", false, "'a'"),
+		mk("having-orderby-alias-false-error", "grouped query with HAVING sorted by the alias of an expression item is rejected (false ONLY_FULL_GROUP_BY error)",
+			"SELECT x.a AS c0, (MAX(x.id) - 1) AS c1 FROM t x GROUP BY x.a HAVING (COUNT(*) > 0) ORDER BY c1, c0 LIMIT 10", true, "1|0", "NULL|1", "2|2", "10|3", "5|4"),
+		mk("distinct-orderby-ordinal", "SELECT DISTINCT sorted by ordinal: wrong order / wrong LIMIT slice / 'unable to sort' error",
+			"SELECT DISTINCT ((x.d * x.d) + 1.10) AS c0 FROM t x ORDER BY 1 DESC LIMIT 1", true, "101.1"),
+		mk("setop-offset-before-sort", "UNION [ALL] with ORDER BY .. LIMIT n OFFSET m skips the m rows before sorting",
+			"(SELECT x.a AS c0 FROM t x) UNION ALL (SELECT y.b AS c0 FROM t y) ORDER BY c0 LIMIT 2 OFFSET 1", true, "1", "1"),
+		mk("in-subquery-null-literal-item", "x NOT IN (SELECT NULL FROM ..) is TRUE instead of NULL",
+			"SELECT x.id AS c0 FROM t x WHERE (NOT (x.b IN (SELECT NULL AS c0 FROM u y)))", false),
+		mk("coalesce-decimal-args-forced-to-one-scale", "COALESCE over DECIMAL arguments of different precision/scale rounds the value to one argument's type (or fails with out-of-range)",
+			"SELECT x.id AS c0 FROM t x WHERE (COALESCE(x.d, 0.0) = 2.25)", false, "3"),
+		mk("subquery-outer-only-conjunct-hoisted", "a subquery WHERE conjunct that references only outer columns is evaluated as a filter of the outer query (wrong for NOT IN / NOT EXISTS / scalar aggregates / NULL)",
+			"SELECT x.id AS c0 FROM t x WHERE (x.b >= (SELECT COUNT(*) AS c0 FROM u y WHERE (x.s <> 'a')))", false, "1", "3", "4", "5"),
+		mk("constant-false-on-with-subquery", "a join whose ON condition is constant false combined with a subquery predicate fails ('failed to replan join: ... *memo.EmptyTable' / 'unable to find field with index')",
+			"SELECT x.id AS c0 FROM t x LEFT JOIN u y ON (1 = 0) WHERE (NOT EXISTS (SELECT z.d AS c0 FROM u z WHERE (y.b = z.d)))", false, "1", "2", "3", "4", "5"),
+	}
+}
+
+func pinned(r *core.Run) {
+	for _, p := range pins() {
+		fails, got, errText := rerun(&p.w)
+		w := p.w
+		w.Actual, w.Error = got, errText
+		what := p.what + " [" + p.w.SQL + "]"
+		r.Pinned(p.sig, what, fails, &w)
+		if !fails {
+			r.Count("pinned-no-longer-failing:"+p.sig, 1)
+		}
+	}
+}
